@@ -49,4 +49,20 @@ TEXT.update({
            "TXT chunking / attribute obligations are engine-M work.",
            "Kani/CBMC bounded model checking (SAT), symbolic lengths"),
 })
+_RR = ("Symbolic execution (mirsym + z3) of the real ResourceRecord::write_to / len / parse MIR, per record type, over records whose "
+       "every integer and byte is a full-width symbol (shapes enumerated): z3 is asked for any field values on which (a) the bytes "
+       "written differ from the RFC reference encoding produced by an independent schema encoder, (b) len()/RDLENGTH differ from the "
+       "bytes written, (c) parsing the reference encoding does not return the original record with the cursor at its end. "
+       "Counter-examples are turned into a Rust test and replayed natively before being reported.")
+TEXT.update({
+ "C02": _t(_RR, "DESIGN.md section 3 C02", "Per-record part of C02 (all 41 typed variants + NULL/unknown); packet-level assembly "
+           "(sections, header, OPT placement) is separate work. Validity predicates assumed are listed in the evidence file.",
+           "MIR symbolic execution + z3: write->reference bytes, reference bytes->parse, field equality"),
+ "C04": _t(_RR, "DESIGN.md section 3 C04", "Decides RDLENGTH == RDATA bytes and len() == bytes written for every record type; "
+           "header counts and writer kinds are separate obligations.",
+           "MIR symbolic execution + z3: len()/RDLENGTH vs bytes written by the real write_to"),
+ "C10": _t(_RR, "DESIGN.md section 3 C10", "Reference encodings come from spec/rdata_schema.py written from the RFCs; type codes are "
+           "additionally decided by the C18 Kani harnesses.",
+           "MIR symbolic execution + z3, differential against an RFC schema encoder"),
+})
 NA_REASON = {}
